@@ -409,12 +409,21 @@ func execHistory(se *session, w, h int, ops []shadow.Op, eo execOpts) *viol {
 				// right neighbour of a wide rune that CHANGED (directly, or by being covered /
 				// uncovered through a change one column further left)
 				wideAt := func(j int) bool { return wideSince[j] || prev[j].Wide || exp[j].Wide }
-				nb := (x > 0 && touched[i-1] && wideAt(i-1)) || (x > 1 && touched[i-2] && (wideAt(i-2) || wideAt(i-1)))
-				trickCell := trickN >= 0 && (i == trickN || i == trickN+1 || (i == trickN-1 && exp[trickN].Cont))
-				// a cell whose displayed content differs from what the previous Show left (a chain of
-				// overlapping wide runes covered / uncovered further left) has to be written for C01
-				dispChanged := !reflect.DeepEqual(prev[i], exp[i])
-				if !touched[i] && !nb && !unlocked[i] && !trickCell && !exp[i].Cont && !dispChanged {
+				allowed := func(i int) bool {
+					x := i % m.W
+					nb := (x > 0 && touched[i-1] && wideAt(i-1)) || (x > 1 && touched[i-2] && (wideAt(i-2) || wideAt(i-1)))
+					trickCell := trickN >= 0 && (i == trickN || i == trickN+1 || (i == trickN-1 && exp[trickN].Cont))
+					// a cell whose displayed content differs from what the previous Show left (a chain of
+					// overlapping wide runes covered / uncovered further left) has to be written for C01
+					dispChanged := !reflect.DeepEqual(prev[i], exp[i])
+					return touched[i] || nb || unlocked[i] || trickCell || dispChanged
+				}
+				ok := allowed(i)
+				if !ok && exp[i].Cont && x > 0 {
+					// the right half of a wide rune is written together with its base, and only then
+					ok = allowed(i-1) && !m.C[i-1].Lock
+				}
+				if !ok {
 					cat := "unchanged-cell-redrawn"
 					if m.C[i].R == 0 {
 						cat += ":nul-rune" // the application stored U+0000 (again) in this cell
@@ -492,6 +501,14 @@ func execHistory(se *session, w, h int, ops []shadow.Op, eo execOpts) *viol {
 			c := m.C[o.Y*m.W+o.X]
 			st := c.St.Style()
 			switch {
+			case o.CS >= 3:
+				nc := shadow.Recomb(c.Comb)
+				if nc == nil {
+					continue
+				}
+				app(func() { s.SetContent(o.X, o.Y, c.R, nc, st) })
+				touch(o.X, o.Y, c.R, nc, c.St)
+				m.Set(o.X, o.Y, c.R, nc, c.St)
 			case o.CS == 0:
 				app(func() { s.SetContent(o.X, o.Y, c.R, append([]rune(nil), c.Comb...), st) })
 			case o.CS == 1:
